@@ -240,13 +240,34 @@ def call(I, name, args, e):
             s = a0.seq
             nm = s.name or I.fresh_name('str')
             return SeqV('char', [('sym', ('a', nm + '.chars'))], name=nm + '.chars')
-    if n == 'core::iter::Iterator::nth':
+    if n == 'core::iter::Iterator::nth' or n.endswith('as core::iter::Iterator>::nth'):
         if isinstance(a0, IterV) and a0.kind == 'chars' and is_term(args[1]):
             s = a0.seq
             nm = s.name or 'str'
-            t = ('sel', ('a', nm + '.chars'), args[1]); sym.SEL_RANGE[('a', nm + '.chars')] = (0, 0x10ffff)
+            pos_ = getattr(a0, 'pos', ZERO)
+            t = ('sel', ('a', nm + '.chars'), add(pos_, args[1])); sym.SEL_RANGE[('a', nm + '.chars')] = (0, 0x10ffff)
+            a0.pos = add(add(pos_, args[1]), ONE)
             return opt_some(t)
         return I.top('nth', e)
+    if n in ('core::iter::Iterator::skip',) or n.endswith('as core::iter::Iterator>::skip'):
+        if isinstance(a0, IterV) and a0.kind == 'chars' and is_term(args[1]) and not a0.maps:
+            r_ = IterV(a0.seq, a0.by_ref, a0.kind); r_.pos = add(getattr(a0, 'pos', ZERO), args[1]); return r_
+        return I.top('skip on %r' % (a0,), e)
+    if n in ('core::iter::Iterator::next',) or n.endswith('as core::iter::Iterator>::next'):
+        # the next character of a string iterator at a known position (the nth model with a cursor)
+        if isinstance(a0, IterV) and a0.kind == 'chars' and not a0.maps:
+            s = a0.seq; nm = s.name or 'str'
+            pos_ = getattr(a0, 'pos', ZERO)
+            t = ('sel', ('a', nm + '.chars'), pos_); sym.SEL_RANGE[('a', nm + '.chars')] = (0, 0x10ffff)
+            a0.pos = add(pos_, ONE)
+            return opt_some(t)
+        return I.top('next on %r' % (a0,), e)
+    if n in ('core::iter::Iterator::zip',) or n.endswith('as core::iter::Iterator>::zip'):
+        b0 = deref(args[1])
+        if isinstance(b0, SeqV): b0 = IterV(b0, isinstance(args[1], RefV))
+        if isinstance(a0, IterV) and isinstance(b0, IterV) and not a0.maps and not b0.maps and a0.kind == b0.kind == 'slice':
+            r_ = IterV(None, False, kind='zip'); r_.parts = (a0, b0); return r_
+        return I.top('zip of %r and %r' % (a0, b0), e)
     if n == 'core::str::<impl str>::starts_with':
         pat = args[1]
         s = a0
